@@ -9,21 +9,22 @@ GEN = os.path.join(COQ, "theories", "Gen", "C01_Kinds.v")
 TRUSTED = [
     "Coq 8.16.1 kernel (coqc); vm_compute used in Examples, refutation witnesses and in the correspondence evaluation; no native_compute",
     "axioms: none (Print Assumptions: Closed under the global context for every theorem)",
-    "hand-written models coq/theories/Base/Reader.v, C01/Model.v, C01/LexModel.v, C01/LuaLexer.v, C01/Pump.v of crates/emmylua_parser/src/"
+    "hand-written models coq/theories/Base/Reader.v, C01/Model.v, C01/LexModel.v, C01/LuaLexer.v, C01/Pump.v, C01/DocPump.v of crates/emmylua_parser/src/"
     "{text/reader.rs, lexer/lua_lexer.rs, parser/lua_parser.rs, parser/marker.rs, syntax/tree/lua_tree_builder.rs, "
     "syntax/tree/lua_green_builder.rs}; tied by the correspondence check (harness vh_parser/src/bin/c01.rs through hook "
     "emmylua_parser::verif + coq/theories/C01/Corr.v)",
     "modelling assumptions: a &str is the list of its chars; offsets are unbounded N; the builder's arena indices are replaced by the "
     "elements they denote (each index lives in exactly one place); rowan::GreenNodeBuilder builds the tree it is told to build",
     "lib/c01_tables.py (regex translator of kind enums, feature sets, keyword table, trivia/invalid kind lists -> Gen/C01_Kinds.v)",
-    "LuaDocParser / LuaDocLexer (doc-comment re-lexing) are NOT modelled: abstract in the pump model, obligation checked on traces",
+    "LuaDocLexer (15 states) is NOT transcribed: abstract oracle in C01/DocPump.v, its Reader discipline is checked on traces; the doc grammar is an arbitrary client",
     "search oracle: tree.get_red_root().text() == input and the leaf tokens' ranges tile [0, len) with matching text",
 ]
 
 THEOREMS = [("builder_yield", "theorem"), ("builder_root_chunk", "theorem"), ("builder_yield_orig_refuted", "refutation"),
-            ("lex_tiles", "theorem"), ("mark_level_exact", "theorem"), ("markers_balanced_partial", "theorem"),
+            ("lex_tiles", "theorem"), ("mark_level_exact", "theorem"), ("markers_balanced", "theorem"),
             ("pump_emits_all", "theorem"), ("C01_main", "theorem"), ("lua_lexer_contract", "theorem"), ("lua_lex_tiles", "theorem"),
-            ("C01_lua", "theorem"), ("builder_example", "example"), ("lexer_example", "example"), ("pump_example", "example")]
+            ("C01_lua", "theorem"), ("doc_pump_tiles", "theorem"), ("doc_obligation_from_pump", "theorem"),
+            ("doc_pump_example", "example"), ("builder_example", "example"), ("lexer_example", "example"), ("pump_example", "example")]
 
 
 def regenerate_tables(ck):
@@ -84,10 +85,73 @@ def dops_to_coq(recs):
             out.append("DPrecede %d%%nat %d" % (r[1], r[3]))
         elif k == "DE":
             out.append("DEat %d %d %d" % (r[1], r[2], r[3]))
+        elif k in ("PB", "PE", "PD", "PC", "PK", "PL"):
+            pass  # primitives of the doc pump: replayed separately (docrun_to_coq)
         else:
             raise ValueError("unexpected record %r inside a doc-parser run" % (r,))
         i += 1
     return coq_list(out)
+
+
+def doc_runs_of(recs):
+    """the doc-parser runs of a recorded trace: list of (group tokens, records between DB and DX)"""
+    runs = []
+    i = 0
+    while i < len(recs):
+        if recs[i][0] == "DB":
+            k = i + 1
+            while k < len(recs) and recs[k][0] != "DX":
+                k += 1
+            runs.append((recs[i][1], recs[i + 1:k]))
+            i = k
+        i += 1
+    return runs
+
+
+def dcase_to_coq(toks, recs, eof_kind):
+    """one doc-parser run -> dcase term (EV.C01.Corr): primitives, lexer answers, expected output"""
+    answers = ["(%d, %d)" % (r[1], r[3]) for r in recs if r[0] == "PL" and not (r[1] == eof_kind and r[3] == 0)]
+    ops = []
+    first_bump = bool(toks)  # init performs the first bump itself
+    i = 0
+    while i < len(recs):
+        r = recs[i]
+        k = r[0]
+        if k == "PB":
+            if first_bump:
+                first_bump = False
+            else:
+                ops.append("PBump %d" % r[1])
+        elif k == "PE":
+            ops.append("PEatLex")
+        elif k == "PD":
+            ops.append("PRecalcDetail")
+        elif k == "PC":
+            ops.append("PRecalcCast")
+        elif k == "PK":
+            ops.append("PSetKind %d" % r[1])
+        elif k == "M":
+            if i + 1 < len(recs) and recs[i + 1][0] == "P" and recs[i + 1][2] == r[1]:
+                i += 1
+                continue
+            ops.append("PMarker (DMark %d)" % r[2])
+        elif k == "K":
+            ops.append("PMarker (DSetKind %d%%nat %d)" % (r[1], r[2]))
+        elif k == "C":
+            ops.append("PMarker (DComplete %d%%nat)" % r[1])
+        elif k == "E":
+            ops.append("PMarker DRawEnd")
+        elif k == "U":
+            ops.append("PMarker (DUndo %d%%nat)" % r[1])
+        elif k == "P":
+            ops.append("PMarker (DPrecede %d%%nat %d)" % (r[1], r[3]))
+        elif k in ("DE", "PL"):
+            pass
+        else:
+            raise ValueError("unexpected record %r inside a doc-parser run" % (r,))
+        i += 1
+    return "{| dc_toks := %s; dc_answers := %s; dc_ops := %s; dc_out := %s |}" % (
+        coq_list([tok_to_coq(t) for t in toks]), coq_list(answers), coq_list(ops), dops_to_coq(recs))
 
 
 def ops_to_coq(recs, tokens, trivia_kinds):
@@ -284,10 +348,36 @@ def correspondence(ck, binpath, n_traces, n_events):
                               json.dumps(c["ops"])[:3000])
             if not r & 8:
                 bad_prefix += 1
+        # (3b) the doc parser's own pump: replay its recorded primitives over the recorded doc-lexer results
+        eof_kind = tkidx["TkEof"]
+        dterms, downers = [], []
+        try:
+            for c in cases:
+                if c["doc"]:
+                    for toks, recs in doc_runs_of(c["ops"]):
+                        dterms.append(dcase_to_coq(toks, recs, eof_kind))
+                        downers.append(c)
+        except ValueError as ex:
+            ck.tie_broken("recorded doc-parser run has an unexpected shape: %s" % ex, "")
+            dterms = []
+        dreps = coq_reports(ck, "corr_docpump", dterms, ["EV.C01.Model", "EV.C01.Pump", "EV.C01.DocPump", "EV.C01.Corr"],
+                            "doc_report", "dcase", per_shard=60) if dterms else []
+        nbad = 0
+        for c, r in zip(downers, dreps or []):
+            where = "%r (level %d)" % (text_of(c), c["level"])
+            if not r & 1:
+                ck.tie_broken("model/implementation disagreement: the model doc pump, driven by the doc parser's recorded primitives and "
+                              "doc-lexer results, does not reproduce what the real doc parser pushed for %s" % where, json.dumps(c["ops"])[:3000])
+            elif r != 31:
+                nbad += 1
+                ck.tie_broken("a real doc-parser run violates a hypothesis of doc_pump_tiles (report bits %d: 2 lexer discipline, 4 client "
+                              "discipline, 8 ended at TkEof, 16 non-empty tokens) for %s" % (r, where), json.dumps(c["ops"])[:3000])
+        ck.cov["distribution"]["corr_doc_pump_replays"] = len(dreps or [])
+        ck.cov["distribution"]["corr_doc_runs_violating_a_hypothesis_of_doc_pump_tiles"] = nbad
         ck.cov["distribution"]["corr_pump_replays"] = len(reps or [])
         ck.cov["distribution"]["corr_traces_doc_parser_not_tiling"] = bad_doc
         ck.cov["distribution"]["corr_traces_violating_client_discipline"] = bad_disc
-        ck.cov["distribution"]["corr_traces_with_a_negative_prefix_depth (unproved part of markers_balanced)"] = bad_prefix
+        ck.cov["distribution"]["corr_traces_with_a_negative_prefix_depth"] = bad_prefix
     ck.cov["distribution"]["corr_real_traces"] = len(cases)
     ck.cov["distribution"]["corr_real_traces_with_syntax_errors"] = with_err
     ck.cov["distribution"]["corr_real_traces_unbalanced_events"] = unbalanced
